@@ -885,6 +885,67 @@ func c03Media(c *core.Check, r *core.Rule) {
 		})
 	}
 
+	// media types are ASCII case-insensitive and evaluateMediaQuery compares with ==: every name that enters a query
+	// list is lower-cased where the list is built (a call to an ASCII lowering function) or is the constant "all"
+	lowered := 0
+	isLower := func(v ssa.Value) bool {
+		if k, ok := core.ConstStr(v); ok {
+			return k == strings.ToLower(k)
+		}
+		call, ok := v.(*ssa.Call)
+		if !ok || call.Call.StaticCallee() == nil {
+			return false
+		}
+		n := call.Call.StaticCallee().Name()
+		return n == "AsciiLower" || n == "ToLower"
+	}
+	for _, fn := range fns {
+		if _, member := media[fn]; !member && fn.Name() != "parseMediaQuery" {
+			continue
+		}
+		fn := fn
+		core.Instrs(fn, func(in ssa.Instruction) {
+			st, ok := in.(*ssa.Store)
+			if !ok {
+				return
+			}
+			ia, ok := st.Addr.(*ssa.IndexAddr)
+			if !ok {
+				return
+			}
+			sl, ok := ia.X.Type().Underlying().(*types.Slice)
+			if !ok {
+				return
+			}
+			if b, isB := sl.Elem().Underlying().(*types.Basic); !isB || b.Kind() != types.String {
+				return
+			}
+			// only lists that reach evaluateMediaQuery or are returned by parseMediaQuery
+			reaches := fn.Name() == "parseMediaQuery"
+			if !reaches {
+				root := ia.X
+				if s2, ok := root.(*ssa.Slice); ok {
+					root = s2.X
+				}
+				core.Instrs(fn, func(in2 ssa.Instruction) {
+					if call, ok := in2.(*ssa.Call); ok && call.Call.StaticCallee() == eval && len(call.Call.Args) > 0 {
+						if call.Call.Args[0] == root || call.Call.Args[0] == ia.X {
+							reaches = true
+						}
+					}
+				})
+			}
+			if !reaches {
+				return
+			}
+			lowered++
+			r.Cond(isLower(st.Val), core.FuncName(fn)+" | media type stored in a query list", p.Pos(st.Pos()), "lower-cased where it is stored", "a media type enters the list as it was written: `<style media=\"PRINT\">` never equals the device medium \"print\" and the sheet is ignored, while `@media PRINT` applies")
+		})
+	}
+	if lowered == 0 {
+		r.Anchor("query lists built for evaluateMediaQuery")
+	}
+
 	// evaluateMediaQuery returns true only for "all" or the device medium
 	{
 		var trueRets []*ssa.Return
